@@ -544,6 +544,8 @@ class SymReal:
             return s
         raise IndexError('symbolic scalar')
 
+    __iter__ = None       # a scalar: not iterable (astropy's isiterable() must say no)
+
     def copy(s): return s
     def __copy__(s): return s
     def __deepcopy__(s, memo): return s
